@@ -90,13 +90,14 @@ inductive DStmt where
   | imp (i : Import)
   | bind (sel : List String) (arg : String) (v : Int)
   /-- `sel.arg = @ref()`: the reference is resolved (and its target registered) while the value is
-      parsed, before the binding itself is looked at; the stored value names the target object -/
-  | bindRef (sel : List String) (arg : String) (ref : List String)
+      parsed, before the binding itself is looked at; the stored value names the target object and the
+      scope the reference is written under (`@scope/ref()`, `scope` indexing a fixed table of scope names) -/
+  | bindRef (sel : List String) (arg : String) (ref : List String) (scope : Nat := 0)
   | unit (body : List DStmt)      -- an included file: its own parse context
 deriving Repr, Inhabited
 
 /-- how a reference to object `r` shows up among the (integer) values of the model -/
-def refValue (r : Nat) : Int := -(1000 + (r : Int))
+def refValue (r : Nat) (scope : Nat := 0) : Int := -(1000 + 1000 * (scope : Int) + (r : Int))
 
 def bindObj (b : Bindings) (o : Nat) (arg : String) (v : Int) : Bindings :=
   AList.set o (AList.set arg v ((lookup o b).getD [])) b
@@ -120,7 +121,7 @@ mutual
       | .ok o =>
         if ((lookup o w.params).getD []).contains arg then (bindObj b o arg v, c, none)
         else (b, c, some .valueError)
-    | .bindRef sel arg ref =>
+    | .bindRef sel arg ref k =>
       if !c.dyn then (b, c, some .valueError) else
       match resolve w c ref with
       | .error e => (b, c, some e)
@@ -128,7 +129,7 @@ mutual
         match resolve w c sel with
         | .error e => (b, c, some e)
         | .ok o =>
-          if ((lookup o w.params).getD []).contains arg then (bindObj b o arg (refValue r), c, none)
+          if ((lookup o w.params).getD []).contains arg then (bindObj b o arg (refValue r k), c, none)
           else (b, c, some .valueError)
     | .unit body =>
       let (b', e) := runStmts w {} b body
